@@ -367,6 +367,293 @@ def gen_sigs(repo):
     return "\n".join(out) + "\n"
 
 
+
+# ------------------------------------------------------------------ serde type descriptions (C15)
+PRIMS = {"f32": "TFloat 32", "f64": "TFloat 64", "bool": "TBool", "usize": "TInt false 64", "isize": "TInt true 64"}
+for _b in (8, 16, 32, 64, 128):
+    PRIMS["u%d" % _b] = "TInt false %d" % _b
+    PRIMS["i%d" % _b] = "TInt true %d" % _b
+
+
+class Unsupported(Exception):
+    pass
+
+
+def split_top(toks, sep=","):
+    """split a token list at top-level separators (respecting <>, (), [], {})"""
+    out, cur, depth = [], [], 0
+    for t in toks:
+        v = t[1]
+        if v in ("<", "(", "[", "{"): depth += 1
+        elif v in (">", ")", "]", "}"): depth -= 1
+        if v == sep and depth == 0:
+            out.append(cur); cur = []
+        else:
+            cur.append(t)
+    if cur: out.append(cur)
+    return out
+
+
+def parse_items(toks):
+    """top-level struct/enum items with their attributes: (kind, name, generics, body_kind, body_tokens, attrs)"""
+    items = []
+    i, n = 0, len(toks)
+    attrs = []
+    depth = 0
+    while i < n:
+        k, v = toks[i]
+        if v == "#" and i + 1 < n and toks[i + 1][1] == "[":
+            j = i + 1; d = 0
+            while j < n:
+                if toks[j][1] == "[": d += 1
+                elif toks[j][1] == "]":
+                    d -= 1
+                    if d == 0: break
+                j += 1
+            attrs.append(toks[i + 2:j]); i = j + 1; continue
+        if k == "id" and v in ("struct", "enum") and depth == 0:
+            name = toks[i + 1][1]
+            j = i + 2
+            generics = []
+            if j < n and toks[j][1] == "<":
+                d = 0; g0 = j
+                while j < n:
+                    if toks[j][1] == "<": d += 1
+                    elif toks[j][1] == ">":
+                        d -= 1
+                        if d == 0: break
+                    j += 1
+                generics = [g[0][1] for g in split_top(toks[g0 + 1:j]) if g and g[0][0] == "id"]
+                j += 1
+            # tuple struct / unit struct / braces (possibly after a where clause)
+            body_kind, body = None, []
+            if v == "struct" and j < n and toks[j][1] == "(":
+                d = 0; b0 = j
+                while j < n:
+                    if toks[j][1] == "(": d += 1
+                    elif toks[j][1] == ")":
+                        d -= 1
+                        if d == 0: break
+                    j += 1
+                body_kind, body = "tuple", toks[b0 + 1:j]
+            else:
+                while j < n and toks[j][1] not in ("{", ";"): j += 1
+                if j < n and toks[j][1] == "{":
+                    e = match_brace(toks, j)
+                    body_kind, body = "brace", toks[j + 1:e]; j = e
+                else:
+                    body_kind = "unit"
+            items.append((v, name, generics, body_kind, body, attrs))
+            attrs = []; i = j + 1; continue
+        if v == "{": depth += 1
+        elif v == "}": depth -= 1
+        if k == "id" and v in ("fn", "impl", "mod", "trait", "use", "const", "static", "type", "pub") :
+            if v != "pub": attrs = []
+        i += 1
+    return items
+
+
+def has_serde_derive(attrs):
+    for a in attrs:
+        txt = " ".join(v for k, v in a)
+        if "derive" in txt and "Serialize" in txt and "Deserialize" in txt:
+            return True
+    return False
+
+
+def serde_field_attrs(attr_list):
+    """serde(...) attributes other than `bound` are outside the modelled universe"""
+    bad = []
+    for a in attr_list:
+        txt = " ".join(v for k, v in a)
+        if "serde" in txt and "derive" not in txt and "serde_as" != txt.strip():
+            inner = re.sub(r"\s+", "", txt)
+            if re.search(r"serde\((?!bound)", inner) or "serde_as(" in inner:
+                bad.append(txt)
+    return bad
+
+
+def strip_attrs(toks):
+    """remove #[...] groups from a token list, returning (tokens, [attr token lists])"""
+    out, attrs, i = [], [], 0
+    while i < len(toks):
+        if toks[i][1] == "#" and i + 1 < len(toks) and toks[i + 1][1] == "[":
+            j = i + 1; d = 0
+            while j < len(toks):
+                if toks[j][1] == "[": d += 1
+                elif toks[j][1] == "]":
+                    d -= 1
+                    if d == 0: break
+                j += 1
+            attrs.append(toks[i + 2:j]); i = j + 1
+        else:
+            out.append(toks[i]); i += 1
+    return out, attrs
+
+
+class TyGen:
+    def __init__(self, items):
+        # items: (kind, name, generics, body_kind, body, attrs, file)
+        self.by_file = {}
+        self.by_name = {}
+        for it in items:
+            self.by_file.setdefault(it[6], {})[it[1]] = it
+            self.by_name.setdefault(it[1], []).append(it)
+        self.items = {it[1]: it for it in items}
+        self.cur_file = None
+
+    def lookup(self, head, module_hint):
+        if module_hint:
+            for f, d in self.by_file.items():
+                if os.path.splitext(os.path.basename(f))[0] == module_hint and head in d:
+                    return d[head]
+        if self.cur_file in self.by_file and head in self.by_file[self.cur_file]:
+            return self.by_file[self.cur_file][head]
+        c = self.by_name.get(head, [])
+        if len(c) == 1: return c[0]
+        if len(c) > 1: raise Unsupported("ambiguous type name %s" % head)
+        return None
+
+    def ty(self, toks, env):
+        toks = [t for t in toks if t[1] not in ("pub", "crate") and not (t[1] in ("(",) and False)]
+        # drop visibility like pub(crate)
+        txt = [t[1] for t in toks]
+        while txt and txt[0] in ("pub", "(", "crate", ")", "super", "in"):
+            txt.pop(0); toks = toks[1:]
+        if not txt: raise Unsupported("empty type")
+        # path: take the last segment before generics
+        module_hint = None
+        if "::" in txt:
+            # keep from the last '::' that is at depth 0
+            d, last = 0, -1
+            for i, v in enumerate(txt):
+                if v == "<": d += 1
+                elif v == ">": d -= 1
+                elif v == "::" and d == 0: last = i
+            if last >= 1: module_hint = txt[last - 1]
+            txt = txt[last + 1:]; toks = toks[last + 1:]
+        head = txt[0]
+        args = []
+        if len(txt) > 1 and txt[1] == "<":
+            args = split_top(toks[2:-1])
+        if head in env: return env[head]
+        if head in PRIMS: return PRIMS[head]
+        if head in ("Vec",) : return "TSeq (%s)" % self.ty(args[0], env)
+        if head == "Box":
+            inner = args[0]
+            if inner and inner[0][1] == "[": return "TSeq (%s)" % self.ty(inner[1:-1], env)
+            return self.ty(inner, env)
+        if head == "Uniform":
+            a = self.ty(args[0], env)
+            if a.startswith("TFloat"):
+                return 'TStruct "UniformFloat" [("low", %s); ("scale", %s)]' % (a, a)
+            return 'TStruct "UniformInt" [("low", %s); ("range", %s); ("thresh", %s)]' % (a, a, a)
+        it = self.lookup(head, module_hint)
+        if it is not None:
+            if not has_serde_derive(it[5]): raise Unsupported("type %s used in a serde type does not derive Serialize/Deserialize" % head)
+            sub = {}
+            for g, a in zip(it[2], args):
+                sub[g] = self.ty(a, env)
+            return self.item(it, sub)
+        raise Unsupported("unknown type %s" % " ".join(txt))
+
+    def fields(self, body, env):
+        res = []
+        for f in split_top(body):
+            f, attrs = strip_attrs(f)
+            bad = serde_field_attrs(attrs)
+            if bad: raise Unsupported("serde attribute outside the modelled universe: %s" % bad[0])
+            f = [t for t in f]
+            names = [t[1] for t in f]
+            if not names: continue
+            c = names.index(":")
+            fname = [x for x in names[:c] if x not in ("pub", "(", ")", "crate")][-1]
+            res.append((fname, self.ty(f[c + 1:], env)))
+        return res
+
+    def item(self, it, env):
+        kind, name, generics, body_kind, body, attrs, file = it
+        saved = self.cur_file
+        self.cur_file = file
+        try:
+            return self.item1(it, env)
+        finally:
+            self.cur_file = saved
+
+    def item1(self, it, env):
+        kind, name, generics, body_kind, body, attrs, file = it
+        bad = serde_field_attrs(attrs)
+        if bad: raise Unsupported("serde attribute outside the modelled universe on %s: %s" % (name, bad[0]))
+        if kind == "struct":
+            if body_kind == "unit": return 'TUnitStruct "%s"' % name
+            if body_kind == "tuple":
+                ts = []
+                for f in split_top(body):
+                    f, at = strip_attrs(f)
+                    if serde_field_attrs(at): raise Unsupported("serde attribute on tuple field of %s" % name)
+                    ts.append(self.ty(f, env))
+                if len(ts) == 1: return 'TNewtype "%s" (%s)' % (name, ts[0])
+                return 'TTupleStruct "%s" [%s]' % (name, "; ".join(ts))
+            return 'TStruct "%s" [%s]' % (name, "; ".join('("%s", %s)' % fl for fl in self.fields(body, env)))
+        vs = []
+        for v in split_top(body):
+            v, at = strip_attrs(v)
+            if serde_field_attrs(at): raise Unsupported("serde attribute on a variant of %s" % name)
+            if not v: continue
+            vname = v[0][1]
+            if len(v) == 1: vs.append('("%s", VUnit)' % vname)
+            elif v[1][1] == "(":
+                ts = [self.ty(x, env) for x in split_top(v[2:-1])]
+                vs.append('("%s", VNewtype (%s))' % (vname, ts[0]) if len(ts) == 1 else '("%s", VTuple [%s])' % (vname, "; ".join(ts)))
+            elif v[1][1] == "{":
+                vs.append('("%s", VStruct [%s])' % (vname, "; ".join('("%s", %s)' % fl for fl in self.fields(v[2:-1], env))))
+            else:
+                raise Unsupported("variant shape of %s::%s" % (name, vname))
+        return 'TEnum "%s" [%s]' % (name, "; ".join(vs))
+
+
+def gen_tydesc(repo):
+    srcdir = os.path.join(repo, "src")
+    items, dist_types = [], set()
+    for root, dirs, files in os.walk(srcdir):
+        for f in sorted(files):
+            if not f.endswith(".rs"): continue
+            src = strip_tests(open(os.path.join(root, f)).read())
+            toks = tokenize(src)
+            items += [it + (os.path.join(root, f),) for it in parse_items(toks)]
+            for m in re.finditer(r"impl(?:<[^{;]*?>)?\s+(?:[\w:]+::)?Distribution<[^{;]*?>\s+for\s+(\w+)", src):
+                dist_types.add(m.group(1))
+            for m in re.finditer(r"impl(?:<[^{;]*?>)?\s+(?:[\w:]+::)?MultiDistribution<[^{;]*?>\s+for\s+(\w+)", src):
+                dist_types.add(m.group(1))
+    g = TyGen(items)
+    entries, skipped = [], []
+    for it in items:
+        kind, name, generics, body_kind, body, attrs, file = it
+        if not has_serde_derive(attrs): continue
+        # instantiate type parameters: float-like parameters at f64 and f32, weight parameters at u32 and f64
+        insts = [({}, "")]
+        for gp in generics:
+            if gp in ("F", "N"): choices = [("TFloat 64", "f64"), ("TFloat 32", "f32")]
+            elif gp == "W": choices = [("TInt false 32", "u32"), ("TInt true 64", "i64"), ("TFloat 64", "f64")]
+            else: choices = [("TFloat 64", "f64")]
+            insts = [(dict(e, **{gp: c[0]}), (sfx + "_" + c[1]) if sfx else c[1]) for e, sfx in insts for c in choices]
+        for env, sfx in insts:
+            try:
+                entries.append(("%s%s" % (name, ("<" + sfx + ">") if sfx else ""), g.item(it, env)))
+            except Unsupported as e:
+                skipped.append((name, str(e)))
+    not_serde = sorted(t for t in dist_types if t in g.items and not has_serde_derive(g.items[t][5]))
+    out = ["(* GENERATED by tools/rs2coq.py — serde descriptions of every type deriving Serialize/Deserialize — do not edit *)",
+           "From Coq Require Import String ZArith List Bool.", "From RD Require Import Model.Serde.", "Import ListNotations.",
+           "Open Scope string_scope.", "Open Scope Z_scope.", "",
+           "Definition tydescs : list (string * tydesc) := [\n  %s]." % ";\n  ".join('("%s", %s)' % e for e in entries), "",
+           "(* types with a Distribution impl that do not derive Serialize/Deserialize *)",
+           "Definition not_serde_enabled : list string := [%s]." % "; ".join('"%s"' % t for t in not_serde),
+           "(* serde-deriving types the generator could not describe (attributes outside the modelled universe): must be empty *)",
+           "Definition undescribed : list (string * string) := [%s]." % "; ".join('("%s", "%s")' % (a, b.replace('"', "'")) for a, b in skipped)]
+    return "\n".join(out) + "\n"
+
+
 def main():
     repo, outd = REPO, OUT
     args = sys.argv[1:]
@@ -380,11 +667,12 @@ def main():
         z = gen_zigtables(repo)
         c, index = gen_consts(repo)
         s = gen_sigs(repo)
+        t = gen_tydesc(repo)
     except Exception as e:
         write_if_changed(os.path.join(outd, "Unparsed.v"), "(* rs2coq could not process the source: %s *)\nDefinition unparsed : bool := true.\n" % str(e).replace("*)", "* )"))
         print("rs2coq: UNPARSED:", e)
         return 3
-    for name, text in (("ZigTables.v", z), ("Consts.v", c), ("Sigs.v", s)):
+    for name, text in (("ZigTables.v", z), ("Consts.v", c), ("Sigs.v", s), ("TyDesc.v", t)):
         if write_if_changed(os.path.join(outd, name), text):
             changed.append(name)
     up = os.path.join(outd, "Unparsed.v")
